@@ -90,6 +90,7 @@ simrt::Config schedConfig(const Json &s) {
     c.pct_events = (uint64_t)s.geti("pct_events", 60);
     c.starve = (int)s.geti("starve", 1);
     c.preempt_mean = s.getd("preempt_mean", 0);
+    if (s.has("random_steps")) c.random_steps = (uint64_t)s.geti("random_steps");
     c.step_cap = (uint64_t)s.geti("step_cap", 2000000);
     return c;
 }
@@ -130,10 +131,11 @@ public:
         sc["pct_depth"] = s.range(0, 3); sc["pct_events"] = s.pick<int>({10, 30, 100, 400});
         sc["starve"] = s.range(1, 3);
         sc["preempt_mean"] = s.pick<double>({0.0, 50.0, 300.0, 300.0, 2000.0, 2000.0, 20000.0});
+        sc["random_steps"] = 1 << 30;
         p["sched"] = sc;
         Json sh = Json::object();
         sh["lists"] = Json::from(std::vector<std::string>{"tasks", "tasks.0", "tasks.1", "tasks.2", "tasks.3", "ops"});
-        sh["ints"] = Json::from(std::vector<std::string>{"make.depth", "make.outs", "make.dims", "sched.strategy", "sched.pct_depth"});
+        sh["ints"] = Json::from(std::vector<std::string>{"sched.random_steps", "make.depth", "make.outs", "make.dims", "sched.strategy", "sched.pct_depth"});
         Json mn = Json::object(); mn["make.dims"] = 1; sh["min"] = mn; p["_shrink"] = sh;
         return p;
     }
